@@ -2,8 +2,10 @@ package props
 
 import (
 	"context"
+	"errors"
 	"fmt"
 	"math/rand"
+	"net"
 	"sort"
 	"strings"
 	"sync"
@@ -194,6 +196,9 @@ func c11History(r *core.Run, ci int64) {
 			}
 			return []simnet.Item{{Data: simnet.PacketProgress(54460, ref.Progress{Rows: 1})}, {Data: simnet.PacketEnd()}}
 		}
+		if i%3 == 1 {
+			conn.CloseErr = errCloseNotify
+		}
 		conn.OnClose = func() {
 			openNow.Add(-1)
 			log.add(c11Event{Kind: "close", Conn: id})
@@ -298,6 +303,12 @@ func c11History(r *core.Run, ci int64) {
 							qc()
 							if err != nil && !ch.IsException(err) {
 								closed = true
+							}
+							// the tag query is the first request of a fresh holder and the server answers it:
+							// failing on a transport that is already closed means the pool handed out a dead
+							// connection whose client does not know it is closed
+							if body == "TAG" && err != nil && errors.Is(err, net.ErrClosed) && !errors.Is(err, ch.ErrClosed) {
+								log.add(c11Event{Kind: "dead-conn-issued", Holder: w, Sess: sess, Note: err.Error()})
 							}
 						}
 						doQ("TAG")
@@ -446,6 +457,13 @@ func c11History(r *core.Run, ci int64) {
 			break
 		}
 		lastSess[e.Conn] = e.Sess
+	}
+	// (c1) no holder was handed a connection whose transport the library had already closed
+	for _, e := range ev {
+		if e.Kind == "dead-conn-issued" {
+			fail("dead-connection-reissued:closed-transport", fmt.Sprintf("session %d (holder %d): the first request on the freshly acquired connection failed on a closed transport: %s", e.Sess, e.Holder, e.Note))
+			break
+		}
 	}
 	// (c2) a holder's query carries only its own settings; the caller's Options.Settings is untouched
 	for _, e := range ev {
